@@ -479,6 +479,21 @@ fn fminpos(flt: Flt) -> f64 {
 }
 
 /// value in accumulation space computed in the element type
+/// a record that a library may refuse already when it is fed (with any error variant) instead of
+/// reporting it at the next query: NaN / infinite, or finite with a value in the accumulation space
+/// - or its square, which the state must hold - that is not finite in the element type
+fn rejectable_at_the_door(flt: Flt, tr: Transform, b: Bits) -> bool {
+    if is_nonfinite(flt, b) {
+        return true;
+    }
+    let t = tval(flt, tr, crate::tape::decode(b, flt));
+    let sq = match flt {
+        Flt::F32 => ((t as f32) * (t as f32)) as f64,
+        _ => t * t,
+    };
+    !t.is_finite() || !sq.is_finite()
+}
+
 fn tval(flt: Flt, tr: Transform, x: f64) -> f64 {
     match (flt, tr) {
         (Flt::F32, Transform::Ln) => (x as f32).ln() as f64,
@@ -751,11 +766,11 @@ pub fn judge(c: &Case, o: &CaseOut) -> Vec<Violation> {
                                 v.push(Violation::new("C11", &format!("{name}/count-after-feeding"), 0, format!("{ctx}: fed {} records, state reports {:?}", c.a.len(), o.counts)));
                             }
                         }
-                        (None, Out::Err(_)) if accepted.iter().any(|&b| is_nonfinite(c.flt, b) || !tval(c.flt, tr, crate::tape::decode(b, c.flt)).is_finite()) => {
+                        (None, Out::Err(_)) if accepted.iter().any(|&b| rejectable_at_the_door(c.flt, tr, b)) => {
                             // narrow relaxation: a NaN / infinite record may be rejected when it
                             // is fed (any variant) instead of being reported by the query; the
                             // state then holds the records that precede it
-                            let i = accepted.iter().position(|&b| is_nonfinite(c.flt, b) || !tval(c.flt, tr, crate::tape::decode(b, c.flt)).is_finite()).unwrap();
+                            let i = accepted.iter().position(|&b| rejectable_at_the_door(c.flt, tr, b)).unwrap();
                             if o.counts.first().copied() != Some(i as u64) {
                                 v.push(Violation::new("C11", &format!("{name}/state-after-rejected-non-finite-record"), 0, format!("{ctx}: {} records precede the rejected one but the state reports {:?}", i, o.counts)));
                             }
@@ -830,7 +845,16 @@ pub fn judge(c: &Case, o: &CaseOut) -> Vec<Violation> {
                         if cnt != 0 && cnt != common as u64 {
                             v.push(Violation::new("C11", &format!("{name}/state-after-failed-extend"), 0, format!("{ctx}: after the failed extend the state reports {cnt} pairs (common prefix is {common})")));
                         }
-                    } else if matches!(fed, Out::Err(_)) && raw_nf {
+                    } else if matches!(fed, Out::Err(_))
+                        && (raw_nf
+                            || ts.iter().any(|&d| {
+                                let sq = match c.flt {
+                                    Flt::F32 => ((d as f32) * (d as f32)) as f64,
+                                    _ => d * d,
+                                };
+                                !d.is_finite() || !sq.is_finite()
+                            }))
+                    {
                         // narrow relaxation: a non-finite record rejected when it is fed
                         return v;
                     } else if !fed.is_ok() {
@@ -851,7 +875,7 @@ pub fn judge(c: &Case, o: &CaseOut) -> Vec<Violation> {
             let fa = facts_of(c.flt, c.a.iter().any(|&b| is_nonfinite(c.flt, b)), &c.a.iter().map(|&b| crate::tape::decode(b, c.flt)).collect::<Vec<_>>());
             let fb = facts_of(c.flt, c.b.iter().any(|&b| is_nonfinite(c.flt, b)), &c.b.iter().map(|&b| crate::tape::decode(b, c.flt)).collect::<Vec<_>>());
             if let Some(fed) = &o.fed {
-                if matches!(fed, Out::Err(_)) && (fa.nonfinite || fb.nonfinite) {
+                if matches!(fed, Out::Err(_)) && (fa.nonfinite || fb.nonfinite || c.a.iter().chain(c.b.iter()).any(|&b| rejectable_at_the_door(c.flt, Transform::Id, b))) {
                     // narrow relaxation: a non-finite record rejected when it is fed
                     return v;
                 } else if !fed.is_ok() {
@@ -864,6 +888,11 @@ pub fn judge(c: &Case, o: &CaseOut) -> Vec<Violation> {
             let few: Vec<usize> = [fa.n, fb.n].into_iter().filter(|&n| n < 2).collect();
             if !few.is_empty() {
                 expect.push(Expect::TooFew(few));
+                if fa.degenerate || fb.degenerate {
+                    // too few observations AND numerically extreme ones: several classes are
+                    // present, any error will do (as for the one-sample intervals)
+                    expect.push(Expect::AnyErr);
+                }
             }
             if fa.nonfinite || fb.nonfinite {
                 expect.push(Expect::InvalidInput);
@@ -1229,6 +1258,30 @@ pub fn enumerate(seed: u64, max_len: usize) -> Vec<Case> {
                             let a = vec![encf(flt, c); len];
                             let b = if e == Entry::PairedHuge { vec![encf(flt, c * 0.5); len] } else { a.clone() };
                             out.push(Case { entry: e, flt, a, b, n: k, k: 0, q: 0, conf: cf, style: 0, fault: "huge-population+constant".into(), pos: k as u32 });
+                        }
+                    }
+                }
+            }
+        }
+    }
+    // ---- records every one of which is valid (finite, with a finite square) but whose squares
+    // overflow the element type once a few of them are summed - by further appends, or only by a
+    // merge of two healthy states: huge magnitudes are degenerate data (any Err or a valid Ok), and
+    // the overflow must not come back as Ok with NaN bounds
+    for flt in [Flt::F32, Flt::F64] {
+        let root = match flt {
+            Flt::F32 => (f32::MAX as f64).sqrt(),
+            _ => f64::MAX.sqrt(),
+        };
+        for &e in &[Entry::ArithHuge, Entry::HarmHuge, Entry::PairedHuge, Entry::UnpairedHuge] {
+            for &top in &[0.95f64, 0.7, 0.5, 0.26] {
+                for len in [2usize, 3, 5] {
+                    for k in [0u64, 1, 2, 3, 5, 8] {
+                        for &cf in &[18u8, 19, 20] {
+                            let vals: Vec<f64> = (0..len).map(|i| root * top * [1.0, 0.61, 0.83, 0.47, 0.92][i]).collect();
+                            let a: Vec<Bits> = vals.iter().map(|&x| encf(flt, if e == Entry::HarmHuge { 1.0 / x } else { x })).collect();
+                            let b: Vec<Bits> = if e == Entry::PairedHuge { vec![encf(flt, 0.0); len] } else { a.iter().rev().copied().collect() };
+                            out.push(Case { entry: e, flt, a, b, n: k, k: 0, q: 0, conf: cf, style: 0, fault: "squares-overflow-when-summed".into(), pos: k as u32 });
                         }
                     }
                 }
